@@ -426,6 +426,7 @@ class Forced:
         self.errors = []
         self.answer = None
         self.unseen_waits = 0
+        self.stuck = set()         # done-events of threads that wait for something untraced: never waited for mid-run
         self.go = {}               # k -> Event that lets the open writer k commit
         self.paused_actions = {}   # k -> number of model actions the open writer had completed when it paused
 
@@ -482,6 +483,7 @@ class Forced:
         while not any(e.is_set() for e in events):
             if not events[0].wait(0.0005) and time.monotonic() > t_end:
                 self.unseen_waits += 1
+                self.stuck.add(id(events[0]))
                 return
 
     def _open_writer(self, k):
@@ -513,12 +515,13 @@ class Forced:
         self.go[k].set()
         done = next(d for kk, _th, d, _b in self.started if kk == k)
         # the open transaction holds mdib_lock; whatever else it may wait for is not traced: give it a bounded time
-        done.wait(2.0)
+        if not done.wait(self.UNSEEN):
+            self.stuck.add(id(done))
 
     def _wait_all_done(self):
         for k, _th, done, _blocked in self.started:
-            if self.opened[k] and not self.go[k].is_set():
-                continue    # an open transaction that has not been told to commit yet
+            if (self.opened[k] and not self.go[k].is_set()) or id(done) in self.stuck:
+                continue    # an open transaction that has not been told to commit yet / a thread waiting for something untraced
             if not done.wait(self.TIMEOUT):
                 self.errors.append('scheduler: writer did not finish after the reader released the lock')
 
